@@ -34,7 +34,8 @@ def run(tier, replay=None):
     try:
         exe = vlib.build_cxx("x_case_san", ["x_case.cpp"], flags=SAN, compiler="clang++")
         rng = vlib.rng(9)
-        comp, _ = fuzzlib.unusual(d, 1)
+        sizes = (1000, 150000) if tier == "quick" else (1000, 20000, 150000, 1000000)
+        comp, _ = fuzzlib.unusual(d, 1, scale_sizes=sizes)
         nun, nmut, nrnd = (12000, 6000, 3000) if tier == "quick" else (None, 300000, 100000)
         cases = []
         for k, p in enumerate(fuzzlib.x_unusual_programs(comp, rng, nun)):
@@ -52,6 +53,10 @@ def run(tier, replay=None):
         cases.append({'id': 'deep-parens', 'src': "proc main() is x := " + "(" * 3000 + "1" + ")" * 3000 + "\n", 'fam': 'deep'})
         cases.append({'id': 'deep-blocks', 'src': "proc main() is " + "{ " * 2000 + "skip" + " }" * 2000 + "\n", 'fam': 'deep'})
         cases.append({'id': 'long-chain', 'src': "var x;\nproc main() is x := " + " + ".join(["1"] * 3000) + "\n", 'fam': 'deep'})
+        # scale: Unusual!XScaleShapes x ScaleSizes (nesting depth of every construct, chain / comment / token / list lengths, numbers of
+        # names).  The small size also goes through the sanitizer build; all sizes go to the executable, where the real stack is.
+        scale = fuzzlib.scale_cases(comp['scale'])
+        cases += [c for c in scale if c['id'].endswith(':1000')]
         for c in cases:
             c['input'] = []
         res = xlib.run_cases(exe, cases, d, tag="c09", cpu_s=20, flags="c")
@@ -83,10 +88,30 @@ def run(tier, replay=None):
             chk.violation("memcheck:" + fuzzlib.stable(head), "xcmp on input %s: valgrind memcheck reports %s" % (c['id'], head), {"input.x": c['src'].encode('latin-1', 'replace')})
         # the EXECUTABLE (its main() has exception handlers of its own) on a sample
         usamp = [c for c in cases if c['fam'] == 'unusual']
-        esub = usamp[:: max(1, len(usamp) // (250 if tier == "quick" else 5000))] + [c for c in cases if c['fam'] in ('edge', 'deep')]
+        esub = usamp[:: max(1, len(usamp) // (250 if tier == "quick" else 5000))] + [c for c in cases if c['fam'] in ('edge', 'deep')] + scale
         for c, what in fuzzlib.exe_sample(os.path.join(corpus.tools(), "xcmp"), esub, d, ".x", "c09"):
             chk.violation("exe:" + what.split(',')[0], "xcmp executable on input %s: %s" % (c['id'], what), {"input.x": c['src'].encode('latin-1', 'replace')})
-        chk.set("executable_runs", len(esub))
+        chk.set("executable_runs", len(esub)); chk.set("scale_inputs", len(scale)); chk.set("scale_sizes", list(sizes))
+        # the front end against spec/XSyntax.tla + spec/XFold.tla (drift grade: which inputs are accepted is not the property's business,
+        # but the grammar is the specification's, so a disagreement is recorded)
+        import xtree
+        tsrc = [('seed%d' % i, s) for i, s in enumerate(xtree.SEEDS)] + [('static%d' % i, s) for i, s in enumerate(xtree.static_sources())]
+        tsrc += xtree.nesting_sources([3, 332, 333, 499, 500, 997, 998, 999, 1000, 1001])
+        nm = 60 if tier == "quick" else 600
+        for i, s in enumerate(xtree.SEEDS[:7] + seeds[:25]):
+            tsrc += [('tmut%d_%d' % (i, j), m) for j, m in enumerate(xtree.mutants(s, rng, nm))]
+        tsrc += [('valid%d' % i, s) for i, s in enumerate(seeds)]
+        trecs = xtree.run(d, plain, tsrc)
+        tcan = json.loads(json.dumps(next(r for r in trecs if r['status'] == 'ok' and r['cmp'] and r['tree']['c']))); tcan['id'] = 'canary'; tcan['tree']['c'] = tcan['tree']['c'][:-1]
+        tverd = xlib.validate(trecs + [tcan], d, "c09tree", module="XTreeV", cfg="XTreeV.cfg")
+        if tverd[-1]['v'] != 'bad':
+            raise vlib.MachineryError("canary accepted by XTreeV: binding is not live")
+        tcnt = collections.Counter(v['cls'] for v in tverd[:-1])
+        tdrift = [{'id': r['id'], 'class': v['cls'], 'why': v['why'], 'src': r['src'][:300]} for r, v in zip(trecs, tverd[:-1]) if v['v'] != 'ok']
+        chk.set("frontend_sources_judged_by_XSyntax_XFold", len(trecs)); chk.set("frontend_verdicts", dict(tcnt))
+        chk.set("DRIFT_frontend_differs_from_XSyntax_XFold", len(tdrift))
+        if tdrift:
+            chk.set("frontend_drift_examples", tdrift[:5])
         # the lexer against spec/Lex.tla: every string up to length 4 over a small alphabet, tokenised by TLC and by the tool
         import lexcheck
         nlex, lexbad = lexcheck.run(d, exe, exe, only="x")
